@@ -2438,6 +2438,10 @@ def r_rest(E):
                         continue
                     f, arg = "//", c.left
                 xa = fully_expanded(arg, fn)
+                # (floor(round(x, n)): the noise absorbed first — the duration truncated is x)
+                while isinstance(xa, ast.Call) and norm(xa.func) == "round" and len(xa.args) == 2 \
+                        and isinstance(xa.args[1], ast.Constant) and isinstance(xa.args[1].value, int) and xa.args[1].value >= 1:
+                    xa = xa.args[0]
                 t = norm(xa)
                 if not _converted_duration(t):
                     continue
@@ -2518,6 +2522,27 @@ def r_hournoise(E):
                                 and norm(fully_expanded(b.left, fn)) == t for b in ast.walk(fn))
                 cls = getattr(fn, "_parent", None)
                 q = f"{cls.name}.{fn.name}" if isinstance(cls, ast.ClassDef) else fn.name
+                if rest_used and not absorbed:
+                    # the values are continuous, but the *shape* is not when a remainder of 2e-16 still adds a term (one more
+                    # hour in the series, which a later ceil() makes a whole instance): the remainder must be compared with
+                    # a tolerance, not with 0
+                    rest_names = {tg.id for b in ast.walk(fn) if isinstance(b, ast.Assign) and isinstance(b.value, ast.BinOp)
+                                  and isinstance(b.value.op, ast.Sub) and (b.value.right is c or (
+                                      isinstance(b.value.right, ast.Name) and b.value.right.id in names))
+                                  for tg in b.targets if isinstance(tg, ast.Name)}
+                    zero_tests = [t_ for t_ in ast.walk(fn) if isinstance(t_, ast.Compare) and len(t_.ops) == 1
+                                  and isinstance(t_.left, ast.Name) and t_.left.id in rest_names
+                                  and isinstance(t_.ops[0], (ast.Gt, ast.NotEq, ast.GtE))
+                                  and isinstance(t_.comparators[0], ast.Constant) and t_.comparators[0].value == 0]
+                    if zero_tests:
+                        res.findings.append(Finding(
+                            "R-HOURNOISE", f"{q} :: remainder of a converted duration compared with 0",
+                            f"{q} splits a converted duration into `{norm(c)[:50]}` full hours plus a remainder and adds a "
+                            f"term whenever the remainder is `{norm(zero_tests[0])}`: 3 600 000 ms is 1.0000000000000002 h, so "
+                            f"a one-hour event typed in milliseconds gets one more hour in its series (weight 2.2e-16) than the "
+                            f"same event typed in hours — and an autoscaling server rounds that hour up to a whole instance",
+                            rel, zero_tests[0].lineno, q))
+                        continue
                 if absorbed or rest_used:
                     if len(res.samples) < 5:
                         res.samples.append({"site": q, "rounding": norm(c)[:70],
